@@ -39,6 +39,7 @@ def strategy(tier):
         "user": st.lists(st.sampled_from(["try", "show", "cancel", "try"]), max_size=3),
         "resubmit": st.one_of(st.none(), st.fixed_dictionaries({
             "failed": st.booleans(), "missing": st.booleans(), "successful": st.booleans()})),
+        "late": C.late_ops(),
     })
 
 
@@ -178,8 +179,10 @@ def run_case(case):
         created = lambda ww: os.path.exists(os.path.join(sim.out, "submitter_groups.json"))  # noqa: E731
         for k in case["user"]:
             w.user_events.append((k, created, (lambda kk: lambda ww: sim.user_cmd(_cmd(sim, kk)))(k)))
+        C.install_late_ops(sim, case.get("late"))
         sim.submit()
         outcome = sim.drive()
+        w.cond_events.clear()
         res = C.base_result(case, sim, outcome)
         v = res["violations"]
         w.user_events.clear()
